@@ -157,6 +157,9 @@ func vfC01eval(c *vfC01Case) (sum map[string]any, verr error) {
 
 func vfC01classes(c *vfC01Case, sum map[string]any) (bool, []string) {
 	cls := []string{fmt.Sprintf("rootHash:%d", c.Spec.RootHash), fmt.Sprintf("epoch:%d", c.Spec.Epoch)}
+	if hl, ok := sum["headerLen"].(uint64); ok && hl > 128 { // header frame = length prefix + body; body > 127 bytes <=> two-byte prefix
+		cls = append(cls, "car-header>127-bytes")
+	}
 	if c.HTTPCar {
 		cls = append(cls, "car-via-http-readerat")
 	} else {
@@ -185,7 +188,7 @@ func vfC01classes(c *vfC01Case, sum map[string]any) (bool, []string) {
 func TestVfC01(t *testing.T) {
 	run := vfh.Begin("C01", "index-all")
 	defer run.End(t)
-	run.Require("varint1", "varint2", "varint3", "car-via-http-readerat", "car-local-file", "rootHash:0", "rootHash:1", "rootHash:2")
+	run.Require("varint1", "varint2", "varint3", "car-via-http-readerat", "car-local-file", "rootHash:0", "rootHash:1", "rootHash:2", "car-header>127-bytes")
 	opts := cargen.DefaultOpts()
 	rapid.Check(t, func(rt *rapid.T) {
 		c := &vfC01Case{Spec: cargen.Gen(rt, opts)}
